@@ -446,7 +446,8 @@ func c12fProperty(t *rapid.T, st *Stats) {
 	if readFault {
 		vfs.FailReadAt(k)
 	} else {
-		vfs.FailAt(k)
+		// one failing call, or (one case in four) a run of 2-6 failing mutating calls: a disk that is full for a while
+		vfs.FailRun(k, rapid.SampledFrom([]int{1, 1, 1, 2, 3, 6}).Draw(t, "failingCalls"))
 		vfs.FailShort(rapid.Bool().Draw(t, "shortWrite")) // a failing write may have taken half of its buffer
 	}
 	h := olareg.New(c12fConf(root))
